@@ -6,7 +6,7 @@ import math
 
 import numpy as np
 
-from rv.core import scribble
+from rv.core import calling, scribble
 from rv.gen import geoms
 
 ANCHORS = ("geometry/operations.py", "arrays/dimensions.py")
@@ -169,6 +169,10 @@ def judge(ctx, tspec, gspecs, values, fill, dtype, all_touched_check=True):
             key = "raises:non_square_time_frequency_template"
         ctx.violate_exc("raises", key, e, spec=spec)
         return
+    if ctx.every(spec, 5) and not names:
+        calling.agree(ctx, "rasterize", O.rasterize, dict(geometries=gs, array=arr, values=values, fill=fill, dtype=np.dtype(dtype)), spec,
+                      same=lambda x, y: list(x.dims) == list(y.dims) and np.array_equal(np.asarray(x.data), np.asarray(y.data), equal_nan=True),
+                      variants={"boolish_all_touched": {"all_touched": calling.boolish(ctx.rng, False)}})
     ctx.mon("rasterize.result")
     # axes
     if names:
